@@ -36,15 +36,17 @@ fn answer_sweep(args: &[&str]) -> Option<String> {
     while x < hi {
         let n = chunk.min(hi - x);
         let mut h = codec::FNV0;
+        let mut nf = 0usize;
         for v in x..x + n {
             argv[0] = v;
             match panic::catch_unwind(AssertUnwindSafe(|| f(&argv))) {
                 Ok(r) => { for y in r { h = codec::mix(h, y); } }
-                Err(_) => { h = codec::mix(h, codec::FAULTMARK); }
+                Err(_) => { h = codec::mix(h, codec::FAULTMARK); nf += 1; }
             }
         }
         out.push(' ');
         out.push_str(&h.to_string());
+        if nf > 0 { out.push('/'); out.push_str(&nf.to_string()); }
         x += n;
     }
     Some(out)
